@@ -580,7 +580,8 @@ func (p *Parser) parseProviderType(pkg *packages.Package, providerType types.Typ
 			return nil, fmt.Errorf("fnProvider requires at least 1 type argument")
 		}
 
-		providerFnSig, ok := typeArgs.At(0).(*types.Signature)
+		// (a provider may be a value of a named or aliased function type: type Factory func() *T)
+		providerFnSig, ok := typeArgs.At(0).Underlying().(*types.Signature)
 		if !ok || providerFnSig == nil {
 			slog.Debug("fnType is nil", "providerType", providerType)
 			return nil, fmt.Errorf("fnProvider type argument is not a function signature")
@@ -636,8 +637,8 @@ func (p *Parser) parseProviderType(pkg *packages.Package, providerType types.Typ
 // Unexported fields are ignored.
 func extractExportedFields(t types.Type) ([]*StructFieldSpec, error) {
 	// Dereference pointer type if needed
-	underlying := t
-	if ptr, ok := t.(*types.Pointer); ok {
+	underlying := types.Unalias(t)
+	if ptr, ok := underlying.(*types.Pointer); ok {
 		underlying = ptr.Elem()
 	}
 
